@@ -308,7 +308,7 @@ pub struct Watchdog {
 thread_local! {
     static MY_SLOT: std::cell::RefCell<Option<Arc<Slot>>> = std::cell::RefCell::new(None);
 }
-pub const WATCHDOG_LIMIT: Duration = Duration::from_secs(20);
+pub const WATCHDOG_LIMIT: Duration = Duration::from_secs(120);
 
 impl Watchdog {
     /// `on_timeout(key, case)` is called from the monitor thread; it must not return normally
